@@ -39,8 +39,12 @@ def handle (args : List String) (impl : String) : Verdict :=
   match args, impl.splitOn " ## " with
   | [_], [hS, finalS, flags] =>
     let (ws, rs, vs) := parseEvents (hS.drop 2).toString
+    -- requests the store must refuse: answered, and answered with the refusal (not a timeout, not accepted)
+    let xs := ((hS.drop 2).toString.splitOn ";").filterMap (fun ev => match ev.splitOn "," with
+      | ["X", _, _, _, st] => some st
+      | _ => none)
     -- (3) every request answered, and answered without error
-    let answered := ws.all (·.ok) && rs.all (fun r => !r.failed) && vs.all id
+    let answered := ws.all (·.ok) && rs.all (fun r => !r.failed) && vs.all id && xs.all (· == "refused")
     -- (1) a read sees every write acknowledged before it was issued, (1') and nothing from the future
     let readsOk := rs.all (fun r =>
       (List.range 4).all (fun i =>
